@@ -217,7 +217,7 @@ class C37(Prop):
                   'only TESTED on the translated Float model against independent big-integer closed forms (relative 1e-9; exhaustive small ranges + random '
                   'counts to 2*10^4 quick / 2*10^5 thorough): the effect of the cut-offs 1e-16 (takeWhile truncation), 1e-12 (D_== in exactMidP), 1e-7 (relErr) and '
                   'of double rounding. Not exhibited at all: commons-math3 HypergeometricDistribution and jdistlib ChiSquare (parameters; the Float test uses a '
-                  'stand-in pmf and compares the chi-squared STATISTIC, not its tail probability), math.log/exp of dnhyper (pinned text, algebraic meaning), the '
+                  'stand-in pmf for the hypergeometric distribution; erfc-based stand-ins for the chi-squared (1 d.f.) and normal tails, accurate to 1e-13 relative down to 1e-300), math.log/exp of dnhyper (pinned text, algebraic meaning), the '
                   'confidence interval / odds-ratio MLE of fisherExactTest (uniroot; sliced away). 32-bit overflow is TESTED (Float model with wrapping Int '
                   'arithmetic on cohort-sized inputs); chiSquaredTest / contingencyTableTest are proved to perform no Int arithmetic. Two open findings: one-sided HWE '
                   'mid-p and Fisher p-values exceed 1 by a few ulp.')
@@ -237,7 +237,9 @@ class C37(Prop):
         'fuel-truncated List, slice/takeWhile/dropWhile/span/filter/map/zipWithIndex/sum (left fold), math.round = floor(x + 1/2), math.max with NaN)',
         'library code that is not in the repository is a parameter (Lib): HypergeometricDistribution.{logProbability, cumulativeProbability, '
         'upperCumulativeProbability}, ChiSquare.cumulative; theorems instantiate it with the closed-form hypergeometric pmf; the Float test uses a '
-        'stand-in (ratio recurrence from the mode; chi-squared tail = identity, i.e. the statistic itself is compared)',
+        'stand-in (hypergeometric pmf: ratio recurrence from the mode; ChiSquare.cumulative(x, 1) = erfc(sqrt(x/2)) and Normal.cumulative(x) = erfc(-x/sqrt 2)/2 '
+        'with an erfc that is accurate in the tails — positive series below 2, continued fraction above — so the chi-squared P-VALUE is compared with '
+        'math.erfc for tables with X^2 up to 2000); math.sqrt = IEEE Float.sqrt',
         'the log/exp block logdc/dnhyper of fisherExactTest is pinned textually; the exact model reads exp(log p + i log ncp - M) / sum as p ncp^i / sum',
         'Lean Float + - * / and comparisons are IEEE-754 double operations as on the JVM (Float.ofInt, Float.floor, Float.log/exp from libm for the stand-in)',
         'doctest outputs recorded in hail/python/hail/expr/functions.py are outputs of the real engine',
@@ -251,6 +253,7 @@ class C37(Prop):
     ]
 
     cache = {}
+    chi_uses_tail = True
     driver_error = ''
     golden = []
     n_ops = 0
@@ -258,7 +261,9 @@ class C37(Prop):
     # ------------------------------------------------------------------------------------------
     def generate(self, repo):
         from ..extract import scala_stats
-        return scala_stats.generate(repo)
+        notes = scala_stats.generate(repo)
+        self.chi_uses_tail = 'chisqTail' in scala_stats.LAST_LIB_USE.get('stats_chiSquaredTest', [])
+        return notes
 
     def setup(self, repo):
         """read the doctests of the four functions (outputs of the real engine)"""
@@ -284,7 +289,7 @@ class C37(Prop):
                 want = [vals.get('p_value')]
             elif fn == 'chi_squared_test':
                 line = 'chi ' + ' '.join(map(str, pos))
-                want = [None, vals.get('odds_ratio')]
+                want = [vals.get('p_value'), vals.get('odds_ratio')]
             else:
                 line = 'ctt ' + ' '.join(map(str, pos)) + ' ' + kw.get('min_cell_count', '0')
                 want = [vals.get('p_value')]
@@ -370,6 +375,10 @@ class C37(Prop):
         for trip in ['1000000 0 1000', '999000 2000 0', '46340 2 46341', '500000000 1000 0', '1073741000 10 100']:
             cs += [self._case('cohort-hwe', f'hwe {trip} 0'), self._case('cohort-hwe', f'hwe {trip} 1')]
         cs += [self._case('cohort-fet', 'fet 12 1488 3000 795500 two.sided'), self._case('cohort-lh', 'lh 1000000 3000 1000')]
+        # strongly associated tables: X^2 from 30 to 2000, p-values down to 1e-300 (the tail of the chi-squared distribution)
+        for t in ['40 0 0 40', '45 5 10 40', '30 2 3 25', '100 1 2 90', '300 10 12 280', '500 3 2 700', '900 40 30 1000', '20 1 1 20', '60 10 8 70',
+                  '5 40 45 10', '700 0 1 650']:
+            cs += [self._case('assoc-chi', f'chi {t}'), self._case('assoc-ctt', f'ctt {t} 0', f'chi {t}')]
         for n in (1, 7, 100, 1000):
             for t in [f'0 0 {n} {n}', f'{n} {n} 0 0', f'0 {n} 0 {n}', f'{n} 0 {n} 0', f'{n} 0 0 {n}', f'0 {n} {n} 0', f'{n} 1 1 {n}',
                       f'{n * 50} 1 {n * 50} 0', f'1 {n * 100} {n * 100} 1', f'{n} {n} {n} {n}']:
@@ -461,6 +470,11 @@ class C37(Prop):
         if r < 0.75:
             return self._case('rand-fet', f'fet {t} {rng.choice(["two.sided", "two.sided", "less", "greater"])}')
         if r < 0.87:
+            if rng.random() < 0.5:      # strongly associated: small off-diagonal (or diagonal) cells
+                big1, big2 = rng.randint(15, 1200), rng.randint(15, 1200)
+                s1, s2 = rng.randint(0, max(1, big1 // rng.choice([3, 10, 40]))), rng.randint(0, max(1, big2 // rng.choice([3, 10, 40])))
+                t = f'{big1} {s1} {s2} {big2}' if rng.random() < 0.7 else f'{s1} {big1} {big2} {s2}'
+                return self._case('assoc-chi', f'chi {t}')
             return self._case('rand-chi', f'chi {t}')
         m = rng.choice([0, 1, 5, min(a, b, c, d), min(a, b, c, d) + 1, rng.randint(0, sz)])
         return self._case('rand-ctt', f'ctt {t} {m}', f'chi {t}', f'fet {t} two.sided')
@@ -501,7 +515,9 @@ class C37(Prop):
             if not v.startswith('val:'):
                 return f'{name} answers {v}, the closed forms give values'
             got = v[4:].split(',')
-            exp = [frac_str(x) for x in want]
+            exp = [frac_str(x) if x is not None else g for x, g in zip(want, got)]
+            if len(got) != len(want):
+                return f'{name} answers {len(got)} values, expected {len(want)}'
             if got != exp:
                 i = next((i for i, (g, e) in enumerate(zip(got, exp)) if g != e), 0)
                 return f'{name}: value #{i} is {got[i][:60]}, the independent closed form gives {exp[i][:60]}'
@@ -601,13 +617,19 @@ class C37(Prop):
             stat = sum(Fraction((o * N - rr * cc) ** 2, N * rr * cc) for o, rr, cc in
                        ((a, a + b, a + c), (b, a + b, b + dd), (c, c + dd, a + c), (dd, c + dd, b + dd)))
             what = f'chiSquaredTest({a}, {b}, {c}, {dd})'
-            if not within(fl[0], stat.numerator, stat.numerator, stat.denominator):
-                return f'{what}: statistic = {fl[0]!r}, sum (O-E)^2/E = {float(stat)!r}'
+            # the p-value: upper tail of chi-squared with 1 d.f. at Pearson's statistic = erfc(sqrt(X^2 / 2))
+            x2 = stat.numerator / stat.denominator
+            p_exp = Fraction(math.erfc(math.sqrt(x2 / 2)))
+            if not (0.0 <= fl[0] <= 1.0):
+                return f'{what}: p_value = {fl[0]!r} is not in [0, 1]'
+            if not within(fl[0], p_exp.numerator, p_exp.numerator, p_exp.denominator):
+                return (f'{what}: p_value = {fl[0]!r}, the chi-squared tail (1 d.f.) of sum (O-E)^2/E = {x2!r} is erfc(sqrt(X^2/2)) = {float(p_exp)!r}')
             if b * c != 0:
                 o = Fraction(a * dd, b * c)
                 if not within(fl[1], o.numerator, o.numerator, o.denominator):
                     return f'{what}: odds_ratio = {fl[1]!r}, ad/bc = {float(o)!r}'
-                return self._check_exact(d, [stat, o])
+                # X / S slot 0 carry the statistic only while the code hands it to pchisqtail (exact side: tail function = identity)
+                return self._check_exact(d, [stat if self.chi_uses_tail else None, o])
             return None
         return None
 
@@ -648,13 +670,15 @@ class C37(Prop):
                     if used_chi != (len(fl) == 2):
                         return (f'{call}: the engine output recorded in functions.py is the {"chi-squared" if used_chi else "Fisher"} p-value of the table, '
                                 f'the translated dispatch chose the other test')
+                    if not (abs(fl[0] - p) <= 1e-9 * max(abs(p), 1e-300)):
+                        return f'{call}: the translated Float model gives p_value = {fl[0]!r}, the engine output recorded in functions.py is {p!r}'
             return None
         exact_arith = c['fn'] in ('hardy_weinberg_test', 'chi_squared_test')
         for i, wv in enumerate(c['want']):
             if wv is None or i >= len(fl):
                 continue
             f = fl[i]
-            tol = 4e-16 if exact_arith else 1e-9
+            tol = 4e-16 if exact_arith and not (c['fn'] == 'chi_squared_test' and i == 0) else 1e-9
             if not (abs(f - wv) <= tol * max(abs(wv), 1e-300)):
                 return f'{call}: the translated Float model gives {f!r}, the engine output recorded in functions.py is {wv!r}'
         return None
